@@ -27,6 +27,7 @@ ALPHABET = collections.OrderedDict([
     # line buffer of the standard streams
     ("off-region-long-last-line", b"a  ;\n// pasfmt off\n" + b"x := " + b"y + " * 2000 + b"z;"),
     ("invalid-utf8", b"a ;\xff\n"),
+    ("invalid-utf8-after-non-ascii", "x := '".encode() + "é".encode() * 13 + b"' ; //\xff\n"),
     ("utf8-bom", b"\xef\xbb\xbfa  ;\n"),
     ("utf16le-bom", "﻿a  ;\n".encode("utf-16-le")),
     ("utf16be-bom-formatted", "﻿a;\n".encode("utf-16-be")),
@@ -285,6 +286,9 @@ def explore(tier, seed):
         for kind in ("shorter-by-many", "formatted", "invalid-utf8"):
             init.append(((odd, ALPHABET[kind]),))
     init.append((("u[1].pas", ALPHABET["longer"]), ("u1.pas", ALPHABET["shorter-by-1"])))
+    # names that differ only in letter case are different files
+    init.append((("unit1.pas", ALPHABET["longer"]), ("Unit1.pas", ALPHABET["shorter-by-many"])))
+    init.append((("unit1.pas", ALPHABET["formatted"]), ("UNIT1.pas", ALPHABET["shorter-by-1"])))
     nparts = 16
     parts = [(init[i::nparts], depth, i) for i in range(nparts)]
     enc_init = [(("x.pas", c),) for c in ENC_ALPHABET.values()]
